@@ -1,10 +1,64 @@
 """C01 — election safety: at most one leader per term."""
-from dvlib import cluster
+import json
+from dvlib import cluster, core
 
 ID = 'C01'
 PROPS_FILE = 'theories/props/Properties_C01.v'
 CONE = ['theories/Election.v', 'theories/AbstractRaft.v', 'theories/proofs/C02.v', 'theories/proofs/C01.v', 'theories/proofs/AR_election.v']
 ORACLES = [cluster.election_safety]
+
+# ---- one election round of the real ElectionHandler over the real GrpcTransport (probe vote_round) ----
+def vote_round_cases(r, n):
+    cases = []
+    for k in range(n):
+        size = r.range(1, 6); me = r.range(1, 7)
+        ids = r.shuffle([i for i in range(1, 9)])[:size]
+        if r.chance(1, 4): ids.append(me)                       # the membership lists the candidate itself
+        if r.chance(1, 5) and ids: ids.append(r.choice(ids))    # a duplicate
+        style = r.below(4)
+        vs = []
+        for i in ids:
+            if style == 0: kind = r.choice([0, 0, 1, 2])
+            elif style == 1: kind = r.choice([0, 1, 1, 1])      # a partition: most peers cannot be reached at all
+            elif style == 2: kind = r.choice([0, 0, 0, 3, 1])
+            else: kind = r.choice([0, 1, 2, 3])
+            vs.append([i, kind])
+        cases.append([me, r.range(1, 9), r.shuffle(vs)])
+    # directed: the minority side of a partition (no channel to the far side), 4 and 5 voters
+    cases += [[1, 2, [[2, 0], [3, 1], [4, 1], [5, 1]]], [1, 2, [[2, 0], [3, 1], [4, 1]]], [1, 2, [[2, 0], [3, 0], [4, 1], [5, 1]]],
+              [2, 3, [[1, 1], [3, 1]]], [1, 2, [[2, 0], [3, 2], [4, 2], [5, 2]]], [1, 2, [[1, 0], [2, 0], [3, 1], [4, 1], [5, 1], [6, 1]]]]
+    return cases
+
+def vote_round_oracle(case, out):
+    """C01 at the level of one round: a candidate that wins holds, with its own vote, grants of a strict majority of
+    ALL voters the membership lists (itself included) - reachable or not."""
+    me, term, vs = case; won, code, ids, nresp, ngrant = out
+    voters = {v[0] for v in vs if v[0] != me}
+    if won and 2 * (ngrant + 1) <= len(voters) + 1:
+        return ('round-won-without-majority-of-all-voters', 'candidate %d won term %d with %d grant(s) + its own vote out of %d voters (the transport reported the electorate %s; voters listed %s)' % (me, term, ngrant, len(voters) + 1, ids, sorted(voters)))
+    return None
+
+def vote_rounds(run, broken, violations, thorough):
+    r = run.rng('vote_round'); cases = vote_round_cases(r, 240 if thorough else 70)
+    outs = core.probe_parallel('vote_round', cases, jobs=8, timeout=900)
+    pairs = []; dist = {}
+    for c, o in zip(cases, outs):
+        if isinstance(o, str): broken.append(('harness', 'vote_round probe error', (json.dumps(c) + ' -> ' + o)[:300])); continue
+        v = vote_round_oracle(c, o)
+        if v: violations.append({'class': v[0], 'probe': 'vote_round', 'input': c, 'output': o, 'why': v[1]})
+        # canonical form for the correspondence: [won, electorate in order of first occurrence in the case]
+        order = []
+        for x in c[2]:
+            if x[0] in o[2] and x[0] not in order: order.append(x[0])
+        extra_ids = [i for i in o[2] if i not in order]
+        pairs.append((c, [o[0], order + extra_ids]))
+        dist['won' if o[0] else ('quorum-failure', 'quorum-failure', 'higher-term', 'denied-or-other')[o[1]]] = dist.get('won' if o[0] else ('quorum-failure', 'quorum-failure', 'higher-term', 'denied-or-other')[o[1]], 0) + 1
+    mism = core.coq_index_list('From DE Require Import Election.', '', 'vote_round_probe', pairs, tag='C01vr')
+    if mism:
+        c, o = pairs[mism[0]]
+        broken.append(('correspondence', 'DE.Election.vote_round_probe vs ElectionHandler::broadcast_vote_requests over GrpcTransport::send_vote_requests (probe vote_round)',
+                       '%d disagreements; first on %s -> impl [won, electorate] = %s' % (len(mism), json.dumps(c), json.dumps(o))))
+    run.cov['vote_rounds'] = len(pairs); run.cov['vote_round_outcomes'] = dist
 
 def check(run):
     run.cov['trusted_base'] += [
@@ -14,9 +68,16 @@ def check(run):
         "harness cluster simulator: real Raft objects, real BufferedRaftLog, MockMembership with a static voter set, simulated transport; real-time election timers (5-10 ms)",
     ]
     run.assumptions += ["static membership (membership changes: C26)", "persistent state survives restarts (state loss on kill: C02/C21 known findings)"]
-    return cluster.check_cluster_property(run, PROPS_FILE, CONE, ORACLES, kills=False, histories=True, refine=True)
+    return cluster.check_cluster_property(run, PROPS_FILE, CONE, ORACLES, kills=False, histories=True, refine=True, extra=vote_rounds)
 
-def replay(path): return cluster.replay_cluster(path, ORACLES)
+def replay(path):
+    r = json.load(open(path))
+    if r.get('probe') == 'vote_round':
+        core.harness_build()
+        out = core.probe('vote_round', [r['input']])[0]
+        print('implementation output [won, code, electorate, responses, grants]:', json.dumps(out)); v = vote_round_oracle(r['input'], out)
+        print('VIOLATES (%s): %s' % v if v else 'ok'); return 1 if v else 0
+    return cluster.replay_cluster(path, ORACLES)
 
 META = {
     'title': 'Election safety: at most one leader per term',
